@@ -4,9 +4,6 @@ package main
 // decoder forms vs the table, encoder ↔ decoder agreement.
 
 import (
-	"fmt"
-	"go/token"
-	"go/types"
 	"math/big"
 
 	"golang.org/x/tools/go/ssa"
@@ -61,138 +58,6 @@ func (w *World) ruleWrapperForwards(r *Report, rule, cname string) {
 
 // ---- string / binary ----
 
-// ruleLenEncoder checks the buffer-building encoders: per form the tag set,
-// the length range, the header windows, and the chunk arithmetic.
-func (w *World) ruleLenEncoder(r *Report, rule, cname string) {
-	c := w.codecs()[cname]
-	if c == nil || c.Enc == nil {
-		r.undecided(rule, cname+" encoder", "-", "not found")
-		return
-	}
-	fn := c.Enc
-	r.fnSeen(fnName(fn))
-	f := w.flow(fn)
-	forms := w.bufForms(fn)
-	lits := w.litForms(fn)
-	n := 0
-	// literal (empty value) forms
-	for _, fm := range lits {
-		if len(fm.Octets) != 1 {
-			continue
-		}
-		n++
-		ts, _ := f.ValueAt(fm.Octets[0], fm.Block)
-		want := single('N')
-		what := "null"
-		if cname == "binary" {
-			want, what = single(0x20), "zero-length binary"
-		}
-		r.add(rule, fmt.Sprintf("%s · empty-value form", fnName(fn)), fm.Pos, ts != nil && ts.Equal(want), fmt.Sprintf("emits %s, expected %s (%s)", ts.HexString(), want.HexString(), what))
-	}
-	var chunkConst int64 = -1
-	var lenKey string
-	for _, fm := range forms {
-		n++
-		h := len(fm.Octets)
-		form := map[int]string{1: "short", 2: "medium", 3: "final"}[h]
-		if fm.Kind == "bufchunk" {
-			form = "chunk"
-		}
-		key := fmt.Sprintf("%s · %s form", fnName(fn), form)
-		if form == "" {
-			r.add(rule, fmt.Sprintf("%s · form with %d header octets", fnName(fn), h), fm.Pos, false, "no spec form has this header size")
-			continue
-		}
-		var sl *specLen
-		for i := range specLens {
-			if specLens[i].Prod == cname && specLens[i].Form == form {
-				sl = &specLens[i]
-			}
-		}
-		wantTags := specTags(cname, form)
-		ts, _ := f.ValueAt(fm.Octets[0], fm.Block)
-		ok := ts != nil && !ts.Empty() && ts.SubsetOf(wantTags)
-		fact := fmt.Sprintf("first octet %s ⊆ spec %s", ts.HexString(), wantTags.HexString())
-		if !ok {
-			fact = fmt.Sprintf("first octet %s ⊄ spec %s for the %s %s form", ts.HexString(), wantTags.HexString(), cname, form)
-		}
-		env := f.At(fm.Block)
-		switch form {
-		case "short", "medium":
-			zero, base, sh, tok := f.tagPlusHigh(fm.Octets[0])
-			wantShift := 0
-			if form == "medium" {
-				wantShift = 8
-			}
-			if !tok || zero != wantTags.Min().Int64() || sh != wantShift {
-				ok = false
-				fact += fmt.Sprintf("; first octet is not %#x + (length >> %d)", wantTags.Min().Int64(), wantShift)
-				break
-			}
-			L, _ := f.Eval(base, env)
-			if !L.SubsetOf(mkSet(sl.Lo, sl.Hi)) {
-				ok = false
-			}
-			fact += fmt.Sprintf("; length ∈ %s (form carries %d..%d)", L, sl.Lo, sl.Hi)
-			lenKey = base.Key()
-			if form == "medium" {
-				b2, s2, wok := f.octetWindow(fm.Octets[1])
-				if !wok || b2.Key() != base.Key() || s2 != 0 {
-					ok = false
-					fact += "; second octet is not byte(length)"
-				}
-			}
-		case "final":
-			b1, s1, ok1 := f.octetWindow(fm.Octets[1])
-			b2, s2, ok2 := f.octetWindow(fm.Octets[2])
-			if !ok1 || !ok2 || s1 != 8 || s2 != 0 || b1.Key() != b2.Key() {
-				ok = false
-				fact += "; header is not byte(length>>8), byte(length)"
-				break
-			}
-			L, _ := f.Eval(b1, env)
-			if !L.SubsetOf(mkSet(sl.Lo, sl.Hi)) {
-				ok = false
-			}
-			fact += fmt.Sprintf("; length ∈ %s (16-bit header)", L)
-			lenKey = b1.Key()
-		case "chunk":
-			v1, _ := f.ValueAt(fm.Octets[1], fm.Block)
-			v2, _ := f.ValueAt(fm.Octets[2], fm.Block)
-			// the header constants live in init: evaluate there
-			if g1, ok1 := w.constOf(fm.Octets[1]); ok1 {
-				v1 = single(g1)
-			}
-			if g2, ok2 := w.constOf(fm.Octets[2]); ok2 {
-				v2 = single(g2)
-			}
-			if v1 == nil || v2 == nil || len(v1) != 1 || len(v2) != 1 || v1.Card().Cmp(one) != 0 || v2.Card().Cmp(one) != 0 {
-				ok = false
-				fact += "; chunk length header is not constant"
-				break
-			}
-			chunkConst = v1.Min().Int64()<<8 | v2.Min().Int64()
-			fact += fmt.Sprintf("; chunk header length = %d", chunkConst)
-			// payload slice [begin : begin+K]
-			psl := findSlice(fm.Payload)
-			if psl == nil || psl.High == nil || psl.Low == nil {
-				ok = false
-				fact += "; chunk payload is not a bounded slice"
-				break
-			}
-			hi, lo := f.term(psl.High), f.term(psl.Low)
-			if !(hi.K == TBin && hi.Op == token.ADD && ((hi.A.Key() == lo.Key() && hi.B.K == TConst && hi.B.C.Int64() == chunkConst) || (hi.B.Key() == lo.Key() && hi.A.K == TConst && hi.A.C.Int64() == chunkConst))) {
-				ok = false
-				fact += fmt.Sprintf("; chunk payload slice is not [begin : begin+%d]", chunkConst)
-			}
-		}
-		r.add(rule, key, fm.Pos, ok, fact)
-	}
-	// chunk arithmetic: length starts at len(X), begin at 0, both step by the chunk size
-	w.ruleChunkArith(r, rule, fn, f, chunkConst, lenKey, cname)
-	r.floor(rule+" ("+cname+")", n, 4)
-}
-
 // constOf evaluates a value that lives in the package initialiser to a constant.
 func (w *World) constOf(v ssa.Value) (int64, bool) {
 	if k, ok := v.(*ssa.Const); ok && k.Value != nil {
@@ -208,114 +73,5 @@ func (w *World) constOf(v ssa.Value) (int64, bool) {
 		return s.Min().Int64(), true
 	}
 	return 0, false
-}
-
-func findSlice(v ssa.Value) *ssa.Slice {
-	for i := 0; i < 6 && v != nil; i++ {
-		switch x := v.(type) {
-		case *ssa.Slice:
-			return x
-		case *ssa.Convert:
-			v = x.X
-		case *ssa.ChangeType:
-			v = x.X
-		default:
-			return nil
-		}
-	}
-	return nil
-}
-
-func (w *World) ruleChunkArith(r *Report, rule string, fn *ssa.Function, f *Flow, K int64, lenKey, cname string) {
-	key := fnName(fn) + " · chunk arithmetic"
-	if K < 0 {
-		r.add(rule, key, w.pos(fn.Pos()), false, "no non-final chunk form found")
-		return
-	}
-	var lenPhi, beginPhi *ssa.Phi
-	var src ssa.Value
-	for _, b := range fn.Blocks {
-		for _, in := range b.Instrs {
-			phi, ok := in.(*ssa.Phi)
-			if !ok {
-				break
-			}
-			if len(phi.Edges) != 2 {
-				continue
-			}
-			for i := 0; i < 2; i++ {
-				init, step := phi.Edges[i], phi.Edges[1-i]
-				st := f.term(step)
-				if st.K != TBin || st.B.K != TConst || st.A.Key() != f.term(phi).Key() || st.B.C.Int64() != K {
-					continue
-				}
-				it := f.term(init)
-				if st.Op == token.SUB && it.K == TPure && it.Name == "len" {
-					lenPhi = phi
-					if c, ok := init.(*ssa.Call); ok {
-						src = c.Call.Args[0]
-					}
-				}
-				if st.Op == token.ADD && it.K == TConst && it.C.Sign() == 0 {
-					beginPhi = phi
-				}
-			}
-		}
-	}
-	ok := lenPhi != nil && beginPhi != nil && src != nil
-	fact := fmt.Sprintf("remaining length = φ(len(x), length-%d), begin = φ(0, begin+%d): invariant begin + length = len(x)", K, K)
-	if !ok {
-		fact = fmt.Sprintf("could not find the pair of loop variables stepping by the chunk size %d (remaining length from len(x) down, offset from 0 up)", K)
-		r.add(rule, key, w.pos(fn.Pos()), false, fact)
-		return
-	}
-	if lenKey != "" && lenKey != f.term(lenPhi).Key() {
-		ok = false
-		fact += "; the length written in the headers is not the loop's remaining length"
-	}
-	// loop guard: remaining > K
-	guardOK := false
-	for _, ref := range *lenPhi.Referrers() {
-		if bo, isB := ref.(*ssa.BinOp); isB && bo.Op == token.GTR && bo.X == ssa.Value(lenPhi) {
-			if k, isC := bo.Y.(*ssa.Const); isC && k.Int64() == K {
-				guardOK = true
-			}
-		}
-	}
-	if !guardOK {
-		ok = false
-		fact += fmt.Sprintf("; the chunk loop is not guarded by length > %d", K)
-	}
-	// unit of length: []rune for strings, []byte for binary
-	wantElem := "rune"
-	if cname == "binary" {
-		wantElem = "byte"
-	}
-	st, isSl := src.Type().Underlying().(*types.Slice)
-	elem := ""
-	if isSl {
-		elem = typeStr(st.Elem())
-		if elem == "int32" {
-			elem = "rune"
-		}
-		if elem == "uint8" {
-			elem = "byte"
-		}
-	}
-	if elem != wantElem {
-		ok = false
-		fact += fmt.Sprintf("; lengths count elements of %s, want []%s", typeStr(src.Type()), wantElem)
-	} else {
-		fact += "; lengths count " + wantElem + "s"
-	}
-	// every payload slice cuts x at begin
-	for _, fm := range w.bufForms(fn) {
-		psl := findSlice(fm.Payload)
-		if psl == nil || psl.X != src || psl.Low != ssa.Value(beginPhi) {
-			ok = false
-			fact += fmt.Sprintf("; payload at %s is not a slice of x starting at begin", fm.Pos)
-		}
-	}
-	r.add(rule, key, w.pos(fn.Pos()), ok, fact)
 }
 
